@@ -831,6 +831,11 @@ def make_stub_modules(interp):
         "typing": StubModule("typing", {"TYPE_CHECKING": False, "Any": Opaque("Any"), "Callable": TypeTag("Callable", None), "Literal": Opaque("Literal"), "cast": lambda t, v: v}),
         "itertools": StubModule("itertools", {"product": lambda *its, repeat=1: [tuple(p) for p in itertools.product(*[interp.iterate(i) for i in its], repeat=repeat)], "chain": lambda *its: [x for i in its for x in interp.iterate(i)]}),
         "functools": StubModule("functools", {"reduce": Opaque("reduce"), "partial": Opaque("partial"), "wraps": lambda f: (lambda g: g)}),
+        "scipy": StubModule("scipy", {"sparse": StubModule("scipy.sparse", {
+            "dok_matrix": lambda shape, **k: A.fresh_array("dok_matrix", tuple(shape), lambda idx: Fraction(0)),
+            "linalg": Opaque("scipy.sparse.linalg")}), "ndimage": Opaque("scipy.ndimage")}),
+        "warnings": StubModule("warnings", {"catch_warnings": Opaque("catch_warnings"), "simplefilter": lambda *a, **k: None, "warn": lambda *a, **k: None}),
+        "logging": StubModule("logging", {"getLogger": lambda *a: Opaque("logger")}),
         "copy": StubModule("copy", {"copy": lambda x: interp.shallow_copy(x), "deepcopy": lambda x, *a: interp.deep_copy(x)}),
     }
     return mods
@@ -1051,6 +1056,13 @@ def ndarray_attr(interp, x: NDArr, name):
         return lambda *a, **k: x
     if name == "setflags":
         return lambda **k: None
+    if name == "setdiag":
+        def setdiag(val):
+            vs = [z3.Int(A.fresh_name("d"))]
+            x.buf.push(A.MapLayer(x.buf.content, [(vs[0], 0, x.shape[0])], True, x.base_index((vs[0], vs[0])), val))
+        return setdiag
+    if name in ("tocsc", "tocsr", "todense", "toarray"):
+        return lambda: x
     if name == "__array_interface__":
         return {"data": (Opaque(f"address of {x.buf!r}"), False)}
     if name == "ctypes":
